@@ -144,164 +144,7 @@ func checkC11(c *km.Ctx) {
 		}
 	}
 
-	// ---------- R-C11-4 encoder / decoder
-	if enc := c.MustFunc("R-C11-4", "lib/certgen", "encodeIpAddressChoice"); enc != nil {
-		var sizeCall *ssa.Call
-		for _, ci := range km.CallsIn(enc) {
-			if cl, ok := ci.(*ssa.Call); ok && km.CalleeFull(cl.Common()) == "(net.IPMask).Size" {
-				sizeCall = cl
-			}
-		}
-		if sizeCall == nil {
-			r.AnchorLost("R-C11-4", "Mask.Size() in encodeIpAddressChoice")
-		} else {
-			// rejects non-32-bit masks
-			rej := false
-			for _, rc := range s.RetCases(enc) {
-				if !km.IsNilConst(rc.Results[1]) {
-					continue
-				}
-				rej = rc.State.All(func(k km.Conj) bool {
-					for _, f := range k.List() {
-						if cl, idx := callRes(f.X); cl == sizeCall && idx == 1 && f.Op == token.EQL {
-							if kv, ok := km.ConstInt(f.Y); ok && kv == 32 {
-								return true
-							}
-						}
-					}
-					return false
-				})
-			}
-			r.Add("R-C11-4", km.FuncName(enc), "encoder: IPv4 masks only", posOf(c, sizeCall), "success only when the mask has 32 bits", sprintf("%v", rej), rej)
-			bl := storesByField(enc, "encoding/asn1.BitString")["BitLength"]
-			for _, st := range bl {
-				cl, idx := callRes(km.Unwrap(st.Val))
-				r.Add("R-C11-4", km.FuncName(enc), "encoder: BitLength", posOf(c, st), "the number of ones of the mask", km.ValStr(st.Val), cl == sizeCall && idx == 0)
-			}
-			if len(bl) == 0 {
-				r.AnchorLost("R-C11-4", "BitLength store in encodeIpAddressChoice")
-			}
-			// byte count = (ones+7)/8
-			okLen := false
-			km.Instrs(enc, func(in ssa.Instruction) {
-				if ms, ok := in.(*ssa.MakeSlice); ok {
-					if d, ok := km.Unwrap(ms.Len).(*ssa.BinOp); ok && d.Op == token.QUO {
-						if kv, isC := km.ConstInt(d.Y); isC && kv == 8 {
-							if add, ok := d.X.(*ssa.BinOp); ok && add.Op == token.ADD {
-								cl, idx := callRes(km.Unwrap(add.X))
-								if k7, isC := km.ConstInt(add.Y); isC && k7 == 7 && cl == sizeCall && idx == 0 {
-									okLen = true
-								}
-							}
-						}
-					}
-				}
-			})
-			r.Add("R-C11-4", km.FuncName(enc), "encoder: byte count", c.P.Pos(enc.Pos()), "ceil(ones/8) = (ones+7)/8 address bytes", sprintf("%v", okLen), okLen)
-		}
-	}
-	if dec := c.MustFunc("R-C11-4", "lib/certgen", "decodeIPV4AddressChoice"); dec != nil {
-		// (dec-1/4) every store into the address array stores an unmodified byte of the encoded bytes at the same index,
-		// under the loop test i*8 < BitLength; or a copy() of ceil(BitLength/8) bytes
-		var arr *ssa.Alloc
-		km.Instrs(dec, func(in ssa.Instruction) {
-			if a, ok := in.(*ssa.Alloc); ok && arrayLen(a.Type()) == 4 {
-				arr = a
-			}
-		})
-		if arr == nil {
-			r.AnchorLost("R-C11-4", "4-byte address array in decodeIPV4AddressChoice")
-		} else {
-			nSt := 0
-			km.Instrs(dec, func(in ssa.Instruction) {
-				st, ok := in.(*ssa.Store)
-				if !ok {
-					return
-				}
-				ia, ok := st.Addr.(*ssa.IndexAddr)
-				if !ok || ia.X != ssa.Value(arr) {
-					return
-				}
-				nSt++
-				good := false
-				if u, ok := km.Unwrap(st.Val).(*ssa.UnOp); ok && u.Op == token.MUL {
-					if src, ok := u.X.(*ssa.IndexAddr); ok && mentionsField(src.X, "Bytes") && km.Unwrap(src.Index) == km.Unwrap(ia.Index) {
-						good = true
-					}
-				}
-				loop := false
-				for _, f := range controllingFactsAll(c, in.Block()) {
-					if f.Op == token.LSS && mentionsField(f.Y, "BitLength") {
-						if m, ok := f.X.(*ssa.BinOp); ok && m.Op == token.MUL && km.Unwrap(m.X) == km.Unwrap(ia.Index) {
-							if kv, isC := km.ConstInt(m.Y); isC && kv == 8 {
-								loop = true
-							}
-						}
-					}
-				}
-				r.Add("R-C11-4", km.FuncName(dec), "decoder: address byte", posOf(c, in), "address[i] = Bytes[i] (unmodified) while i*8 < BitLength, i.e. ceil(BitLength/8) bytes", sprintf("unmodified-same-index=%v loop-test=%v value=%s", good, loop, clipS(km.ValStr(st.Val), 80)), good && loop)
-			})
-			for _, ci := range km.CallsIn(dec) {
-				if b, ok := ci.Common().Value.(*ssa.Builtin); ok && b.Name() == "copy" {
-					nSt++
-					src := km.Unwrap(ci.Common().Args[1])
-					good := false
-					if sl, ok := src.(*ssa.Slice); ok && sl.High != nil && mentionsField(sl.X, "Bytes") {
-						if d, ok := km.Unwrap(sl.High).(*ssa.BinOp); ok && d.Op == token.QUO {
-							if add, ok := d.X.(*ssa.BinOp); ok && add.Op == token.ADD && mentionsField(add.X, "BitLength") {
-								k7, ok1 := km.ConstInt(add.Y)
-								k8, ok2 := km.ConstInt(d.Y)
-								good = ok1 && ok2 && k7 == 7 && k8 == 8
-							}
-						}
-					}
-					r.Add("R-C11-4", km.FuncName(dec), "decoder: address bytes (copy)", posOf(c, ci), "copy of exactly ceil(BitLength/8) = (BitLength+7)/8 encoded bytes", clipS(km.ValStr(src), 120), good)
-				}
-			}
-			if nSt == 0 {
-				r.AnchorLost("R-C11-4", "stores into the address array in decodeIPV4AddressChoice")
-			}
-		}
-		// (dec-2) mask
-		nMask := 0
-		for _, ci := range km.CallsIn(dec) {
-			if km.CalleeFull(ci.Common()) == "net.CIDRMask" {
-				nMask++
-				a := ci.Common().Args
-				bits, isC := km.ConstInt(a[1])
-				ok := mentionsField(a[0], "BitLength") && isC && bits == 32
-				r.Add("R-C11-4", km.FuncName(dec), "decoder: mask", posOf(c, ci), "net.CIDRMask(BitLength, 32)", km.ValStr(a[0])+", "+km.ValStr(a[1]), ok)
-			}
-			if km.CalleeFull(ci.Common()) == "net.IPv4" {
-				a := ci.Common().Args
-				ok := len(a) == 4
-				for i := 0; ok && i < 4; i++ {
-					u, isU := km.Unwrap(a[i]).(*ssa.UnOp)
-					if !isU {
-						ok = false
-						break
-					}
-					ia, isIA := u.X.(*ssa.IndexAddr)
-					idx, isC := int64(-1), false
-					if isIA {
-						idx, isC = km.ConstInt(ia.Index)
-					}
-					if !isIA || ia.X != ssa.Value(arr) || !isC || idx != int64(i) {
-						ok = false
-					}
-				}
-				r.Add("R-C11-4", km.FuncName(dec), "decoder: address", posOf(c, ci), "net.IPv4(address[0], address[1], address[2], address[3])", sprintf("%v", ok), ok)
-			}
-		}
-		if nMask == 0 {
-			r.AnchorLost("R-C11-4", "CIDRMask call in decodeIPV4AddressChoice")
-		}
-	}
-	if gen := c.MustFunc("R-C11-4", "lib/certgen", "genDelegationExtension"); gen != nil {
-		for _, st := range storesByField(gen, certgenPkg+".IpAdressFamily")["AddressFamily"] {
-			r.Add("R-C11-4", km.FuncName(gen), "family constant (encoder)", posOf(c, st), "ipV4FamilyEncoding", km.ValStr(st.Val), isGlobalLoad(st.Val, "ipV4FamilyEncoding"))
-		}
-	}
+	checkIPCodec(c, s, "R-C11-4")
 	checkIPv4Decoder(c, s, "R-C11-5")
 	_ = strings.Contains
 }
@@ -369,4 +212,167 @@ func derivesFromCallD(v ssa.Value, callee string, idx int, depth int) bool {
 		return n > 0
 	}
 	return false
+}
+
+// checkIPCodec: structural agreement of the address-extension encoder and decoder (shared by C11 and C06).
+func checkIPCodec(c *km.Ctx, s *km.Sem, rule string) {
+	r := c.R
+	// ---------- R-C11-4 encoder / decoder
+	if enc := c.MustFunc(rule, "lib/certgen", "encodeIpAddressChoice"); enc != nil {
+		var sizeCall *ssa.Call
+		for _, ci := range km.CallsIn(enc) {
+			if cl, ok := ci.(*ssa.Call); ok && km.CalleeFull(cl.Common()) == "(net.IPMask).Size" {
+				sizeCall = cl
+			}
+		}
+		if sizeCall == nil {
+			r.AnchorLost(rule, "Mask.Size() in encodeIpAddressChoice")
+		} else {
+			// rejects non-32-bit masks
+			rej := false
+			for _, rc := range s.RetCases(enc) {
+				if !km.IsNilConst(rc.Results[1]) {
+					continue
+				}
+				rej = rc.State.All(func(k km.Conj) bool {
+					for _, f := range k.List() {
+						if cl, idx := callRes(f.X); cl == sizeCall && idx == 1 && f.Op == token.EQL {
+							if kv, ok := km.ConstInt(f.Y); ok && kv == 32 {
+								return true
+							}
+						}
+					}
+					return false
+				})
+			}
+			r.Add(rule, km.FuncName(enc), "encoder: IPv4 masks only", posOf(c, sizeCall), "success only when the mask has 32 bits", sprintf("%v", rej), rej)
+			bl := storesByField(enc, "encoding/asn1.BitString")["BitLength"]
+			for _, st := range bl {
+				cl, idx := callRes(km.Unwrap(st.Val))
+				r.Add(rule, km.FuncName(enc), "encoder: BitLength", posOf(c, st), "the number of ones of the mask", km.ValStr(st.Val), cl == sizeCall && idx == 0)
+			}
+			if len(bl) == 0 {
+				r.AnchorLost(rule, "BitLength store in encodeIpAddressChoice")
+			}
+			// byte count = (ones+7)/8
+			okLen := false
+			km.Instrs(enc, func(in ssa.Instruction) {
+				if ms, ok := in.(*ssa.MakeSlice); ok {
+					if d, ok := km.Unwrap(ms.Len).(*ssa.BinOp); ok && d.Op == token.QUO {
+						if kv, isC := km.ConstInt(d.Y); isC && kv == 8 {
+							if add, ok := d.X.(*ssa.BinOp); ok && add.Op == token.ADD {
+								cl, idx := callRes(km.Unwrap(add.X))
+								if k7, isC := km.ConstInt(add.Y); isC && k7 == 7 && cl == sizeCall && idx == 0 {
+									okLen = true
+								}
+							}
+						}
+					}
+				}
+			})
+			r.Add(rule, km.FuncName(enc), "encoder: byte count", c.P.Pos(enc.Pos()), "ceil(ones/8) = (ones+7)/8 address bytes", sprintf("%v", okLen), okLen)
+		}
+	}
+	if dec := c.MustFunc(rule, "lib/certgen", "decodeIPV4AddressChoice"); dec != nil {
+		// (dec-1/4) every store into the address array stores an unmodified byte of the encoded bytes at the same index,
+		// under the loop test i*8 < BitLength; or a copy() of ceil(BitLength/8) bytes
+		var arr *ssa.Alloc
+		km.Instrs(dec, func(in ssa.Instruction) {
+			if a, ok := in.(*ssa.Alloc); ok && arrayLen(a.Type()) == 4 {
+				arr = a
+			}
+		})
+		if arr == nil {
+			r.AnchorLost(rule, "4-byte address array in decodeIPV4AddressChoice")
+		} else {
+			nSt := 0
+			km.Instrs(dec, func(in ssa.Instruction) {
+				st, ok := in.(*ssa.Store)
+				if !ok {
+					return
+				}
+				ia, ok := st.Addr.(*ssa.IndexAddr)
+				if !ok || ia.X != ssa.Value(arr) {
+					return
+				}
+				nSt++
+				good := false
+				if u, ok := km.Unwrap(st.Val).(*ssa.UnOp); ok && u.Op == token.MUL {
+					if src, ok := u.X.(*ssa.IndexAddr); ok && mentionsField(src.X, "Bytes") && km.Unwrap(src.Index) == km.Unwrap(ia.Index) {
+						good = true
+					}
+				}
+				loop := false
+				for _, f := range controllingFactsAll(c, in.Block()) {
+					if f.Op == token.LSS && mentionsField(f.Y, "BitLength") {
+						if m, ok := f.X.(*ssa.BinOp); ok && m.Op == token.MUL && km.Unwrap(m.X) == km.Unwrap(ia.Index) {
+							if kv, isC := km.ConstInt(m.Y); isC && kv == 8 {
+								loop = true
+							}
+						}
+					}
+				}
+				r.Add(rule, km.FuncName(dec), "decoder: address byte", posOf(c, in), "address[i] = Bytes[i] (unmodified) while i*8 < BitLength, i.e. ceil(BitLength/8) bytes", sprintf("unmodified-same-index=%v loop-test=%v value=%s", good, loop, clipS(km.ValStr(st.Val), 80)), good && loop)
+			})
+			for _, ci := range km.CallsIn(dec) {
+				if b, ok := ci.Common().Value.(*ssa.Builtin); ok && b.Name() == "copy" {
+					nSt++
+					src := km.Unwrap(ci.Common().Args[1])
+					good := false
+					if sl, ok := src.(*ssa.Slice); ok && sl.High != nil && mentionsField(sl.X, "Bytes") {
+						if d, ok := km.Unwrap(sl.High).(*ssa.BinOp); ok && d.Op == token.QUO {
+							if add, ok := d.X.(*ssa.BinOp); ok && add.Op == token.ADD && mentionsField(add.X, "BitLength") {
+								k7, ok1 := km.ConstInt(add.Y)
+								k8, ok2 := km.ConstInt(d.Y)
+								good = ok1 && ok2 && k7 == 7 && k8 == 8
+							}
+						}
+					}
+					r.Add(rule, km.FuncName(dec), "decoder: address bytes (copy)", posOf(c, ci), "copy of exactly ceil(BitLength/8) = (BitLength+7)/8 encoded bytes", clipS(km.ValStr(src), 120), good)
+				}
+			}
+			if nSt == 0 {
+				r.AnchorLost(rule, "stores into the address array in decodeIPV4AddressChoice")
+			}
+		}
+		// (dec-2) mask
+		nMask := 0
+		for _, ci := range km.CallsIn(dec) {
+			if km.CalleeFull(ci.Common()) == "net.CIDRMask" {
+				nMask++
+				a := ci.Common().Args
+				bits, isC := km.ConstInt(a[1])
+				ok := mentionsField(a[0], "BitLength") && isC && bits == 32
+				r.Add(rule, km.FuncName(dec), "decoder: mask", posOf(c, ci), "net.CIDRMask(BitLength, 32)", km.ValStr(a[0])+", "+km.ValStr(a[1]), ok)
+			}
+			if km.CalleeFull(ci.Common()) == "net.IPv4" {
+				a := ci.Common().Args
+				ok := len(a) == 4
+				for i := 0; ok && i < 4; i++ {
+					u, isU := km.Unwrap(a[i]).(*ssa.UnOp)
+					if !isU {
+						ok = false
+						break
+					}
+					ia, isIA := u.X.(*ssa.IndexAddr)
+					idx, isC := int64(-1), false
+					if isIA {
+						idx, isC = km.ConstInt(ia.Index)
+					}
+					if !isIA || ia.X != ssa.Value(arr) || !isC || idx != int64(i) {
+						ok = false
+					}
+				}
+				r.Add(rule, km.FuncName(dec), "decoder: address", posOf(c, ci), "net.IPv4(address[0], address[1], address[2], address[3])", sprintf("%v", ok), ok)
+			}
+		}
+		if nMask == 0 {
+			r.AnchorLost(rule, "CIDRMask call in decodeIPV4AddressChoice")
+		}
+	}
+	if gen := c.MustFunc(rule, "lib/certgen", "genDelegationExtension"); gen != nil {
+		for _, st := range storesByField(gen, certgenPkg+".IpAdressFamily")["AddressFamily"] {
+			r.Add(rule, km.FuncName(gen), "family constant (encoder)", posOf(c, st), "ipV4FamilyEncoding", km.ValStr(st.Val), isGlobalLoad(st.Val, "ipV4FamilyEncoding"))
+		}
+	}
 }
